@@ -70,6 +70,7 @@ TraceSpec == TraceInit /\ [][TraceNext]_vars
 NoPanic == ev.ev \in {"Compute", "Finalize"} => ~ev.panic
 HarnessTree ==
   /\ ev.ev = "AddBlock" => (ev.p \in DOMAIN par /\ rnd[ev.b] = rnd[ev.p] + 1 /\ ev.linked)
+  /\ ev.ev = "Notarize" => (ev.b \in DOMAIN par /\ ev.linked)
   /\ ev.ev = "Finalize" => (ev.before = plfb /\ ev.after \in DOMAIN par)
   /\ ev.ev = "Compute" => (ev.res = NoBlock \/ ev.res \in DOMAIN par)
 
@@ -77,8 +78,8 @@ HarnessTree ==
 (* recent block that is an ancestor of every notarized block of the latest     *)
 (* round in (lfbr, r] that has any, and lies in an earlier round.              *)
 C36_CommonAncestor ==
-  /\ ev.ev = "Compute" => ev.res = RefCompute(par, rnd, nota, ev.lfbr, ev.r)
-  /\ ev.ev = "Finalize" => ev.computed = RefCompute(par, rnd, nota, rnd[plfb], ev.r)
+  /\ (ev.ev = "Compute" /\ ~IsKnown(ev)) => ev.res = RefCompute(par, rnd, nota, ev.lfbr, ev.r)
+  /\ (ev.ev = "Finalize" /\ ~IsKnown(ev)) => ev.computed = RefCompute(par, rnd, nota, rnd[plfb], ev.r)
 
 (* C36 (2): a finalizeRound call leaves the LFB where it was or moves it to a  *)
 (* descendant that is not beyond the chosen block.  The only other move the    *)
@@ -91,7 +92,7 @@ IsRollback ==
   /\ DeepFork(par, rnd, nota, plfb)
   /\ lfb = CommonAnc(par, rnd, plfb, Chosen)
 C36_SingleChain ==
-  (ev.ev = "Finalize" /\ lfb # plfb) =>
+  (ev.ev = "Finalize" /\ ~IsKnown(ev) /\ lfb # plfb) =>
      \/ (Descends(par, lfb, plfb) /\ Chosen # NoBlock /\ Descends(par, Chosen, lfb))
      \/ IsRollback
 =============================================================================
